@@ -268,7 +268,7 @@ TCF = 'py_ballisticcalc/trajectory_calc/_trajectory_calc.py'
 CON = 'py_ballisticcalc/conditions.py'
 VARIANTS = [
     Variant('slope-constant-in-reader-only', 'break', [(MUN, 'self.temp_modifier / (15 / v0) * t_delta + v0', 'self.temp_modifier / (10 / v0) * t_delta + v0')], 'C17.R2', 'sibling disagreement', 'pass'),
-    Variant('reader-sign-flip', 'break', [(MUN, 't_delta = t1 - t0\n', 't_delta = t0 - t1\n')], 'C17.R2'),
+    Variant('reader-sign-flip', 'break', [(MUN, 't_delta = t1 - t0\n            muzzle_velocity', 't_delta = t0 - t1\n            muzzle_velocity')], 'C17.R2'),
     Variant('solver-uses-air-temperature', 'break', [(TCF, 'get_velocity_for_temp(shot_info.atmo.powder_temp)', 'get_velocity_for_temp(shot_info.atmo.temperature)')], 'C17.R4', 'positive control', 'caught'),
     Variant('solver-reads-mv', 'break', [(TCF, 'self.muzzle_velocity = shot_info.ammo.get_velocity_for_temp(shot_info.atmo.powder_temp) >> Velocity.FPS', 'self.muzzle_velocity = shot_info.ammo.mv >> Velocity.FPS')], 'C17.R4', 'positive control', 'caught'),
     Variant('disabled-path-weakened', 'break', [(MUN, '        if not self.use_powder_sensitivity:\n            return self.mv\n', '        if not self.use_powder_sensitivity and not self.temp_modifier:\n            return self.mv\n')], 'C17.R1', 'positive control', 'caught'),
